@@ -652,3 +652,307 @@ Qed.
 
 Lemma reach_inv tot epl tr : Inv (run (new_lim tot epl) tr).
 Proof. apply run_inv, Inv_new. Qed.
+
+(* ---------- the limits are constants of a run ---------- *)
+Lemma notify_consts l : eplimit (notify l) = eplimit l /\ total (notify l) = total l /\
+  keyof (notify l) = keyof l /\ arr (notify l) = arr l /\ tab (notify l) = tab l /\ cancelled (notify l) = cancelled l.
+Proof. unfold notify. destruct (notify_loop _ _ _ _) as [[h q] s]. simpl. repeat split. Qed.
+
+Lemma sem_release_consts l : eplimit (sem_release l) = eplimit l /\ total (sem_release l) = total l /\
+  keyof (sem_release l) = keyof l /\ arr (sem_release l) = arr l /\ tab (sem_release l) = tab l.
+Proof. unfold sem_release. destruct (notify_consts (with_sem l (held l - 1) (semq l))) as (A & B & C & D & E & _). now rewrite A, B, C, D, E. Qed.
+
+Lemma release_ep_consts l k : eplimit (release_ep l k) = eplimit l /\ total (release_ep l k) = total l.
+Proof. unfold release_ep. destruct (tab l k) as [[c [|w q]]|]; [destruct (c - 1 =? 0)| |]; simpl; split; reflexivity. Qed.
+
+Lemma step_consts l a : eplimit (step l a) = eplimit l /\ total (step l a) = total l.
+Proof.
+  destruct a as [r k|r|r|r|r|r|r|r|r|r|r]; unfold step, step_gen, sem_release, notify, release_ep, set_st, with_st, with_tab, with_sem;
+    repeat match goal with
+    | |- context [match ?x with _ => _ end] => destruct x eqn:?
+    | |- context [if ?x then _ else _] => destruct x eqn:?
+    end; simpl; split; reflexivity.
+Qed.
+
+Lemma run_consts l tr : eplimit (run l tr) = eplimit l /\ total (run l tr) = total l.
+Proof.
+  revert l. induction tr as [|a tr IH]; intros l; [split; reflexivity|]. simpl.
+  destruct (IH (step l a)) as [A B]. destruct (step_consts l a) as [C D]. rewrite A, B, C, D. split; reflexivity.
+Qed.
+
+Lemma norm_id x : 0 < x -> norm x = x.
+Proof. unfold norm. destruct (Z.leb_spec x 0); lia. Qed.
+
+(* ---------- clause 1 and 2: the limits ---------- *)
+Lemma count_sub (f : N -> bool) (rs a : list N) : NoDup rs -> (forall x, f x = true -> In x a) ->
+  (length (filter f rs) <= length (filter f a))%nat.
+Proof.
+  intros Hnd Hin. apply NoDup_incl_length; [now apply NoDup_filter|].
+  intros x Hx. apply filter_In in Hx. apply filter_In. split; [apply Hin|]; tauto.
+Qed.
+
+Definition in_flight_on (l : lim) (k : N) (r : N) : bool := N.eqb (keyof l r) k && is_inflight (st l r).
+Definition in_flight (l : lim) (r : N) : bool := is_inflight (st l r).
+
+Lemma endpoint_limit limit epl tr k rs : 0 < epl -> NoDup rs ->
+  count_where (in_flight_on (run (new_lim limit epl) tr) k) rs <= epl.
+Proof.
+  intros Hpos Hnd. set (l := run (new_lim limit epl) tr).
+  destruct (reach_inv limit epl tr) as (HA & HE & HT). fold l in HA, HE, HT.
+  assert (Hl : eplimit l = epl) by (unfold l; rewrite (proj1 (run_consts _ _)); simpl; now apply norm_id).
+  destruct HE as [_ HE]. destruct (HE k) as (_ & Hc & _). rewrite Hl in Hc.
+  unfold count_where.
+  assert (L1 : (length (filter (in_flight_on l k) rs) <= length (filter (in_flight_on l k) (arr l)))%nat).
+  { apply count_sub; [assumption|]. intros x Hx. apply HA. unfold in_flight_on in Hx.
+    apply andb_true_iff in Hx. destruct Hx as [_ Hx]. destruct (st l x); simpl in Hx; discriminate. }
+  assert (L2 : (length (filter (in_flight_on l k) (arr l)) <= length (selK holds_ep (keyof l) (st l) (arr l) k))%nat).
+  { apply filter_len_le. intros x Hx. unfold in_flight_on in Hx. apply andb_true_iff in Hx. destruct Hx as [H1 H2].
+    rewrite H1. destruct (st l x); simpl in *; congruence. }
+  lia.
+Qed.
+
+Lemma total_limit limit epl tr rs : 0 < limit -> NoDup rs ->
+  count_where (in_flight (run (new_lim limit epl) tr)) rs <= limit.
+Proof.
+  intros Hpos Hnd. set (l := run (new_lim limit epl) tr).
+  destruct (reach_inv limit epl tr) as (HA & HE & HT). fold l in HA, HE, HT.
+  assert (Hl : total l = limit) by (unfold l; rewrite (proj2 (run_consts _ _)); simpl; now apply norm_id).
+  destruct HT as (_ & Hh & Hc & _). rewrite Hl in Hc.
+  unfold count_where.
+  assert (L1 : (length (filter (in_flight l) rs) <= length (filter (in_flight l) (arr l)))%nat).
+  { apply count_sub; [assumption|]. intros x Hx. apply HA. unfold in_flight in Hx.
+    destruct (st l x); simpl in Hx; discriminate. }
+  assert (L2 : (length (filter (in_flight l) (arr l)) <= length (selK holds_tot k0 (st l) (arr l) 0%N))%nat).
+  { apply filter_len_le. intros x Hx. unfold in_flight in Hx. unfold k0. simpl.
+    destruct (st l x); simpl in *; congruence. }
+  lia.
+Qed.
+
+(* ---------- clause 3: arrival order ---------- *)
+Lemma notify_loop_st tot hd q s x : s x <> TotWait -> snd (notify_loop tot hd q s) x = s x.
+Proof.
+  revert hd s. induction q as [|w q IH]; intros hd s Hx; simpl; [reflexivity|].
+  destruct (tot - hd <? 1); [reflexivity|]. rewrite IH.
+  - unfold upd. destruct (N.eqb_spec x w) as [->|]; [|reflexivity]. destruct (s w); simpl; congruence.
+  - unfold upd. destruct (N.eqb_spec x w) as [->|]; [|assumption]. destruct (s w); simpl; congruence.
+Qed.
+
+Lemma notify_st l x : st l x <> TotWait -> st (notify l) x = st l x.
+Proof.
+  intros H. unfold notify. pose proof (notify_loop_st (total l) (held l) (semq l) (st l) x H) as E.
+  destruct (notify_loop _ _ _ _) as [[h q] s]. simpl in *. exact E.
+Qed.
+
+Lemma sem_release_st l x : st l x <> TotWait -> st (sem_release l) x = st l x.
+Proof. intros H. unfold sem_release. now rewrite notify_st. Qed.
+
+Lemma waits_not_totwait s : waits_ep s = true -> s <> TotWait.
+Proof. destruct s; simpl; congruence. Qed.
+
+Ltac nf H := unfold set_st, with_st, with_tab, with_sem in H; cbn [st] in H.
+Ltac fin Hs H1 H2 Hupd :=
+  refine (Hupd _ _ _ _ _ H2);
+  [ let E := fresh "E" in intros E; first [reflexivity | (rewrite <- E in H1; rewrite Hs in H1; discriminate)]
+  | first [reflexivity | (apply sem_release_st; assumption) | (rewrite notify_st; [reflexivity|assumption])] ].
+
+(* the only action that turns a waiting request into a slot owner is releaseEndpoint popping it
+   from the head of its path's queue *)
+Lemma grant_only_by_pop l a w : Inv l -> waits_ep (st l w) = true -> holds_ep (st (step l a) w) = true ->
+  exists r e cnt rest, a = ReleaseEp r /\ st l r = RelEp e /\ tab l (keyof l r) = Some (cnt, w :: rest).
+Proof.
+  intros HI H1 H2. pose proof (waits_not_holds _ H1) as H3. pose proof (waits_not_totwait _ H1) as H4.
+  assert (Hupd : forall s r v, (r = w -> holds_ep v = false) -> s w = st l w -> holds_ep (upd s r v w) = true -> False).
+  { intros s r v Hv Hs Hh. unfold upd in Hh. destruct (N.eqb_spec w r) as [->|]; [rewrite Hv in Hh by reflexivity; discriminate|].
+    rewrite Hs, H3 in Hh. discriminate. }
+  destruct a as [r k|r|r|r|r|r|r|r|r|r|r]; unfold step, step_gen in H2.
+  - exfalso. destruct (st l r) eqn:Hs; try (rewrite H3 in H2; discriminate).
+    cbv zeta in H2. cbn [tab eplimit] in H2.
+    destruct (tab l k) as [[c q]|]; [destruct (c <? eplimit l)|]; nf H2; fin Hs H1 H2 Hupd.
+  - exfalso. nf H2. rewrite H3 in H2. discriminate.
+  - exfalso. destruct (st l r) eqn:Hs; try (rewrite H3 in H2; discriminate). nf H2; fin Hs H1 H2 Hupd.
+  - exfalso. destruct (st l r) eqn:Hs; try (rewrite H3 in H2; discriminate). nf H2; fin Hs H1 H2 Hupd.
+  - exfalso. destruct (cancelled l r); [|rewrite H3 in H2; discriminate].
+    destruct (st l r) eqn:Hs; try (rewrite H3 in H2; discriminate); nf H2; fin Hs H1 H2 Hupd.
+  - exfalso. destruct (st l r) eqn:Hs; try (rewrite H3 in H2; discriminate).
+    + destruct HI as (HA & HE & _).
+      assert (Hin : In r (arr l)) by (apply HA; rewrite Hs; discriminate).
+      destruct (E_waiter_entry _ _ _ _ _ r HE Hin) as (cnt & q & Htb & Hq); [now rewrite Hs|].
+      rewrite Htb in H2. apply mem_in in Hq. rewrite Hq in H2. nf H2; fin Hs H1 H2 Hupd.
+    + destruct (tab l (keyof l r)) as [[c q]|]; [destruct (mem r q)|]; nf H2; fin Hs H1 H2 Hupd.
+  - destruct (st l r) eqn:Hs; try (rewrite H3 in H2; discriminate).
+    unfold release_ep in H2. destruct (tab l (keyof l r)) as [[c [|w' rest]]|] eqn:Htb.
+    + exfalso. destruct (c - 1 =? 0); nf H2; fin Hs H1 H2 Hupd.
+    + nf H2. unfold upd at 1 in H2. destruct (N.eqb_spec w r) as [->|Hwr]; [discriminate|].
+      unfold upd in H2. destruct (N.eqb_spec w w') as [->|Hww]; [|rewrite H3 in H2; discriminate].
+      exists r, e, c, rest. repeat split; assumption.
+    + exfalso. nf H2; fin Hs H1 H2 Hupd.
+  - exfalso. destruct (st l r) eqn:Hs; try (rewrite H3 in H2; discriminate).
+    destruct (cancelled l r); [nf H2; fin Hs H1 H2 Hupd|].
+    destruct (_ && _); nf H2; fin Hs H1 H2 Hupd.
+  - exfalso. destruct (cancelled l r); [|rewrite H3 in H2; discriminate].
+    destruct (st l r) eqn:Hs; try (rewrite H3 in H2; discriminate).
+    + destruct (_ && (held l <? total l)); nf H2; fin Hs H1 H2 Hupd.
+    + nf H2; fin Hs H1 H2 Hupd.
+  - exfalso. destruct (st l r) eqn:Hs; try (rewrite H3 in H2; discriminate).
+    destruct (cancelled l r); nf H2; fin Hs H1 H2 Hupd.
+  - exfalso. destruct (st l r) eqn:Hs; try (rewrite H3 in H2; discriminate). nf H2; fin Hs H1 H2 Hupd.
+Qed.
+
+Lemma arrival_order limit epl tr a w :
+  let l := run (new_lim limit epl) tr in
+  waits_ep (st l w) = true -> holds_ep (st (step l a) w) = true ->
+  forall pre post, arr l = pre ++ w :: post ->
+  forall r', In r' pre -> keyof l r' = keyof l w -> waits_ep (st l r') = false.
+Proof.
+  intros l H1 H2 pre post Harr r' Hr' Hk.
+  pose proof (reach_inv limit epl tr) as HI. fold l in HI.
+  destruct (grant_only_by_pop l a w HI H1 H2) as (r & e & cnt & rest & -> & Hs & Htb).
+  destruct HI as (HA & HE & _).
+  destruct (E_entry_queue _ _ _ _ _ _ _ _ HE Htb) as (Hq & _ & _).
+  assert (Hwk : keyof l w = keyof l r).
+  { assert (Hw : In w (selK waits_ep (keyof l) (st l) (arr l) (keyof l r))) by (rewrite <- Hq; now left).
+    apply selK_in in Hw. tauto. }
+  unfold selK in Hq. rewrite Harr, filter_app in Hq. simpl in Hq.
+  rewrite Hwk, N.eqb_refl, H1 in Hq. simpl in Hq.
+  destruct (filter (fun x => N.eqb (keyof l x) (keyof l r) && waits_ep (st l x)) pre) as [|y ys] eqn:Hpre.
+  - pose proof (filter_nil_all _ _ Hpre r' Hr') as Hf. simpl in Hf.
+    rewrite Hk, Hwk, N.eqb_refl in Hf. exact Hf.
+  - exfalso. simpl in Hq. inversion Hq; subst y.
+    assert (Hwpre : In w pre).
+    { assert (Hin : In w (filter (fun x => N.eqb (keyof l x) (keyof l r) && waits_ep (st l x)) pre)) by (rewrite Hpre; now left).
+      apply filter_In in Hin. tauto. }
+    destruct HA as [Hnd _]. rewrite Harr in Hnd. apply NoDup_remove_2 in Hnd. apply Hnd.
+    apply in_or_app. now left.
+Qed.
+
+(* ---------- clause 4: a cancelled waiter that owns no slot ---------- *)
+Lemma cancel_sees limit epl tr r :
+  let l := run (new_lim limit epl) tr in
+  st l r = EpWait -> cancelled l r = true ->
+  let l' := step l (SeeCancel r) in
+  st l' r = CancelQ /\ (forall x, x <> r -> st l' x = st l x) /\ tab l' = tab l /\ held l' = held l /\ semq l' = semq l.
+Proof.
+  intros l Hs Hc. unfold step, step_gen. rewrite Hc, Hs. simpl. repeat split.
+  - apply upd_eq.
+  - intros x Hx. now apply upd_neq.
+Qed.
+
+Lemma cancel_withdraws limit epl tr r :
+  let l := run (new_lim limit epl) tr in
+  st l r = CancelQ ->
+  let l' := step l (CancelSec r) in
+  st l' r = Done ErrEp /\ (forall x, x <> r -> st l' x = st l x) /\
+  (forall k, k <> keyof l r -> tab l' k = tab l k) /\
+  (exists cnt q, tab l (keyof l r) = Some (cnt, q) /\ In r q /\ tab l' (keyof l r) = Some (cnt, rem1 r q)) /\
+  held l' = held l /\ semq l' = semq l.
+Proof.
+  intros l Hs. pose proof (reach_inv limit epl tr) as HI. fold l in HI. destruct HI as (HA & HE & _).
+  assert (Hin : In r (arr l)) by (apply HA; rewrite Hs; discriminate).
+  destruct (E_waiter_entry _ _ _ _ _ r HE Hin) as (cnt & q & Htb & Hq); [now rewrite Hs|].
+  unfold step, step_gen. rewrite Hs, Htb. pose proof Hq as Hm. apply mem_in in Hm. rewrite Hm. simpl.
+  repeat split.
+  - apply upd_eq.
+  - intros x Hx. now apply upd_neq.
+  - intros k Hk. now apply upd_neq.
+  - exists cnt, q. repeat split; [assumption|apply upd_eq].
+Qed.
+
+(* ---------- clause 5/6: idle after all calls returned ---------- *)
+Definition all_done (l : lim) : Prop := forall r, In r (arr l) -> exists e, st l r = Done e.
+
+Lemma idle limit epl tr :
+  let l := run (new_lim limit epl) tr in
+  all_done l -> (forall k, tab l k = None) /\ held l = 0 /\ semq l = [].
+Proof.
+  intros l Hd. pose proof (reach_inv limit epl tr) as HI. fold l in HI. destruct HI as (HA & HE & HT).
+  assert (Hnone : forall P k0' k, (forall e, P (Done e) = false) -> selK P k0' (st l) (arr l) k = []).
+  { intros P kf k HP. apply filter_all_nil. intros x Hx. destruct (Hd x Hx) as [e ->]. now rewrite HP, andb_false_r. }
+  repeat split.
+  - intros k. destruct HE as [_ HE]. destruct (HE k) as (Ht & _). rewrite Ht.
+    now rewrite (Hnone holds_ep) by reflexivity.
+  - destruct HT as (_ & Hh & _). rewrite Hh. now rewrite (Hnone holds_tot) by reflexivity.
+  - destruct HT as (_ & _ & _ & Hq & _). destruct (semq l) as [|x q] eqn:E; [reflexivity|].
+    exfalso. assert (Hx : st l x = TotWait) by (apply Hq; now left).
+    assert (Hin : In x (arr l)) by (apply HA; rewrite Hx; discriminate).
+    destruct (Hd x Hin) as [e He]. congruence.
+Qed.
+
+Lemma idle_admits limit epl tr r k :
+  let l := run (new_lim limit epl) tr in
+  all_done l -> st l r = NotYet -> cancelled l r = false ->
+  st (run l [Arrive r k; SeeGrant r; AcquireTot r]) r = InFlight.
+Proof.
+  intros l Hd Hs Hc. destruct (idle limit epl tr Hd) as (Htab & Hheld & Hsemq). fold l in Htab, Hheld, Hsemq.
+  pose proof (reach_inv limit epl tr) as HI. fold l in HI. destruct HI as (_ & _ & (Htot & _)).
+  change (run l [Arrive r k; SeeGrant r; AcquireTot r])
+    with (step (step (step l (Arrive r k)) (SeeGrant r)) (AcquireTot r)).
+  set (l1 := step l (Arrive r k)).
+  assert (H1 : st l1 r = EpGranted /\ cancelled l1 r = false /\ held l1 = 0 /\ semq l1 = [] /\ total l1 = total l).
+  { unfold l1, step, step_gen. rewrite Hs. cbv zeta. cbn [tab]. rewrite (Htab k). simpl.
+    rewrite upd_eq. repeat split; assumption. }
+  destruct H1 as (A1 & A2 & A3 & A4 & A5).
+  set (l2 := step l1 (SeeGrant r)).
+  assert (H2 : st l2 r = HasEp /\ cancelled l2 r = false /\ held l2 = 0 /\ semq l2 = [] /\ total l2 = total l).
+  { unfold l2, step, step_gen. rewrite A1. simpl. rewrite upd_eq. repeat split; assumption. }
+  destruct H2 as (B1 & B2 & B3 & B4 & B5).
+  unfold step, step_gen. rewrite B1, B2, B3, B4, B5.
+  replace (total l - 0 >=? 1) with true by (symmetry; rewrite Z.geb_leb; apply Z.leb_le; lia).
+  simpl. apply upd_eq.
+Qed.
+
+(* ---------- no lost wake-up: when every goroutine is at rest, whoever waits is waiting for a
+   request that is inside the wrapped function ---------- *)
+Lemma at_rest_progress limit epl tr :
+  let l := run (new_lim limit epl) tr in
+  quiescent l = true ->
+  (exists r, In r (arr l) /\ (st l r = EpWait \/ st l r = TotWait)) ->
+  exists r', In r' (arr l) /\ st l r' = InFlight.
+Proof.
+  intros l Hq (r & Hin & Hw).
+  pose proof (reach_inv limit epl tr) as HI. fold l in HI. destruct HI as (HA & HE & HT).
+  (* at rest: every status of an arrived request is EpWait, TotWait, InFlight or Done *)
+  assert (Hrest : forall x, In x (arr l) -> internal l x = None).
+  { unfold quiescent in Hq. revert Hq. generalize (arr l). induction l0 as [|y ys IH]; simpl; [tauto|].
+    destruct (internal l y) eqn:E; [discriminate|]. intros Hq x [->|Hx]; [assumption|now apply IH]. }
+  assert (Htw : (exists x, In x (arr l) /\ st l x = TotWait) -> exists r', In r' (arr l) /\ st l r' = InFlight).
+  { intros (x & Hx & Hsx).
+    destruct HT as (Ht & Hh & Hc & Hsq & Hnd & Hf).
+    assert (Hne : semq l <> []) by (intros E; assert (Hi : In x (semq l)) by (now apply Hsq); rewrite E in Hi; destruct Hi).
+    specialize (Hf Hne).
+    destruct (selK holds_tot k0 (st l) (arr l) 0%N) as [|y ys] eqn:E; [simpl in Hh; lia|].
+    assert (Hy : In y (selK holds_tot k0 (st l) (arr l) 0%N)) by (rewrite E; now left).
+    apply selK_in in Hy. destruct Hy as (Hya & _ & Hyh).
+    exists y. split; [assumption|]. pose proof (Hrest y Hya) as Hi. unfold internal in Hi.
+    destruct (st l y); simpl in Hyh; try discriminate; try reflexivity; destruct (cancelled l y); discriminate. }
+  destruct Hw as [Hw|Hw]; [|apply Htw; eauto].
+  destruct HE as [He HE]. destruct (HE (keyof l r)) as (_ & _ & Hf).
+  assert (Hne : selK waits_ep (keyof l) (st l) (arr l) (keyof l r) <> []).
+  { intros E. assert (Hi : In r (selK waits_ep (keyof l) (st l) (arr l) (keyof l r))) by (apply selK_in; rewrite Hw; tauto).
+    rewrite E in Hi. destruct Hi. }
+  specialize (Hf Hne).
+  destruct (selK holds_ep (keyof l) (st l) (arr l) (keyof l r)) as [|y ys] eqn:E; [simpl in Hf; lia|].
+  assert (Hy : In y (selK holds_ep (keyof l) (st l) (arr l) (keyof l r))) by (rewrite E; now left).
+  apply selK_in in Hy. destruct Hy as (Hya & _ & Hyh).
+  pose proof (Hrest y Hya) as Hi. unfold internal in Hi.
+  destruct (st l y) eqn:Hsy; simpl in Hyh; try discriminate; try (destruct (cancelled l y); discriminate).
+  - apply Htw. eauto.
+  - eauto.
+Qed.
+
+(* ---------- F10: the code before the repair ---------- *)
+Lemma endpoint_limit_refuted_pre :
+  exists tr, let l := fold_left step_pre tr (new_lim 0 1) in
+    count_where (in_flight_on l 0%N) (arr l) > eplimit l.
+Proof.
+  exists [Arrive 0 0; SeeGrant 0; AcquireTot 0; Arrive 1 0; Arrive 2 0; Cancel 2; SeeCancel 2; ReleaseEp 2;
+          SeeGrant 1; AcquireTot 1]%N.
+  vm_compute. reflexivity.
+Qed.
+
+(* the scheduler used by the correspondence only performs actions of the model *)
+Lemma settle_is_run fuel l : exists tr, settle fuel l = run l tr.
+Proof.
+  revert l. induction fuel as [|f IH]; intros l; [exists []; reflexivity|].
+  simpl. unfold settle in *. simpl. destruct (first_enabled l (arr l)) as [a|]; [|exists []; reflexivity].
+  destruct (IH (step_gen true l a)) as [tr Htr]. exists (a :: tr). exact Htr.
+Qed.
